@@ -11,51 +11,43 @@ def visAt (readTs : Nat) (e : Ent) : Bool := !CmpOp.gt.nat e.ver readTs
 theorem visAt_congr (readTs : Nat) : ∀ a b, ikEq a b = true → visAt readTs a = visAt readTs b := by
   intro a b h; simp only [visAt, (ikEq_iff.mp h).2]
 
+theorem txnSources_ro (c : IterCfg) (db : DB) : txnSources c db false [] = lsmAll c db true := by
+  simp [txnSources, lsmAll]
+
+theorem wrapF_vis (c : IterCfg) (hw : c.wrapReadTsOp = .gt) (rts : Nat) (l : List Ent) :
+    wrapF c rts true l = l.filter (visAt rts) := by
+  simp only [wrapF, if_true, hw]; rfl
+
 theorem txn_mergedRewind (c : IterCfg) (hc : c.TxnGood) (db : DB) (h : db.WF) (rev : Bool) :
     mergedRewind c rev db.readTs (txnSources c db false []) =
       if rev then ((dbSnapshot db).filter (visAt db.readTs)).reverse else (dbSnapshot db).filter (visAt db.readTs) := by
-  obtain ⟨hops, hadv, himm, _, _, _, _⟩ := hc
+  obtain ⟨hops, hadv, himm, _, _, _, hft, hcc⟩ := hc
   obtain ⟨_, _, _, _, _, hw, _⟩ := hops
-  unfold mergedRewind txnSources dbSnapshot
-  simp only [Bool.false_and, Bool.false_eq_true, if_false, List.nil_append]
-  rw [hadv, List.map_map]
-  have hitems := lsmSources_items c himm db
+  rw [txnSources_ro, lsm_mergedRewind c himm hft hcc db h, hadv]
+  unfold dbSnapshot
+  simp only [wrapF_vis c hw]
   cases rev
-  · have : (lsmSources c db).map ((fun s : Source => s.wrap c db.readTs (srcRewind false s.items)) ∘ fun s => ⟨.compareKeys, s, true⟩)
-        = db.byRecency.map (List.filter (visAt db.readTs)) := by
-      rw [← hitems, List.map_map]; apply List.map_congr_left; intro s _
-      simp [Source.wrap, srcRewind, Source.items, hw]
-      rfl
-    rw [this, mergeTree_filter false _ (visAt_congr _) _ h.allSorted, mergeTree_eq_snapshot _ h.allSorted]
-    simp
-  · have : (lsmSources c db).map ((fun s : Source => s.wrap c db.readTs (srcRewind true s.items)) ∘ fun s => ⟨.compareKeys, s, true⟩)
-        = (db.byRecency.map List.reverse).map (List.filter (visAt db.readTs)) := by
-      rw [← hitems, List.map_map, List.map_map]; apply List.map_congr_left; intro s _
-      simp [Source.wrap, srcRewind, Source.items, hw]
-      rfl
-    have hs' : AllSorted (dirLt true) (db.byRecency.map List.reverse) := by
+  · have := mergeTree_filter false _ (visAt_congr db.readTs) _ h.allSorted
+    rw [mergeTree_eq_snapshot _ h.allSorted] at this
+    simpa [List.map_map, Function.comp_def] using this
+  · have hs' : AllSorted (dirLt true) (db.byRecency.map List.reverse) := by
       intro s hs1
       obtain ⟨u, hu, rfl⟩ := List.mem_map.mp hs1
       exact sorted_reverse false (h.allSorted u hu)
-    rw [this, mergeTree_filter true _ (visAt_congr _) _ hs', mergeTree_rev_eq_snapshot _ h.allSorted]
-    simp [List.filter_reverse]
+    have := mergeTree_filter true _ (visAt_congr db.readTs) _ hs'
+    rw [mergeTree_rev_eq_snapshot _ h.allSorted, List.map_map] at this
+    simpa [Function.comp_def, List.filter_reverse] using this
 
 theorem txn_mergedSeek_fwd (c : IterCfg) (hc : c.TxnGood) (db : DB) (h : db.WF) (t : Ent) :
     mergedSeek c false db.readTs t (txnSources c db false []) =
       ((dbSnapshot db).dropWhile (fun e => ikLt e t)).filter (visAt db.readTs) := by
-  obtain ⟨hops, hadv, himm, _, _, _, hft⟩ := hc
+  obtain ⟨hops, hadv, himm, _, _, _, hft, hcc⟩ := hc
   obtain ⟨_, _, _, _, _, hw, _⟩ := hops
-  unfold mergedSeek txnSources dbSnapshot
-  simp only [Bool.false_and, Bool.false_eq_true, if_false, List.nil_append]
-  rw [hadv, List.map_map]
-  have hitems := lsmSources_items c himm db
-  have : (lsmSources c db).map ((fun s : Source => s.wrap c db.readTs (s.seek c false t)) ∘ fun s => ⟨.compareKeys, s, true⟩)
-      = (db.byRecency.map (List.dropWhile (fun e => ikLt e t))).map (List.filter (visAt db.readTs)) := by
-    rw [← hitems, List.map_map, List.map_map]; apply List.map_congr_left; intro s hs
-    have := lsmSources_blocks c himm db h s hs
-    simp [Source.wrap, Source.seek, hft, blockSeek_source t s this.1 this.2, hw]
-    rfl
-  rw [this, mergeTree_filter false _ (visAt_congr _) _ (allSorted_map_dropWhile _ _ h.allSorted),
-    mergeTree_dropWhile false (anti_ikLt_target t) _ h.allSorted, mergeTree_eq_snapshot _ h.allSorted]
+  rw [txnSources_ro, lsm_mergedSeek c himm hft hcc db h, hadv]
+  unfold dbSnapshot
+  simp only [wrapF_vis c hw]
+  have h1 := mergeTree_filter false _ (visAt_congr db.readTs) _ (allSorted_map_dropWhile (fun e => ikLt e t) _ h.allSorted)
+  rw [mergeTree_dropWhile false (anti_ikLt_target t) _ h.allSorted, mergeTree_eq_snapshot _ h.allSorted, List.map_map] at h1
+  simpa [Function.comp_def] using h1
 
 end NoKV.Iter
